@@ -355,11 +355,10 @@ fn loop_device_too_small(rep: &Report, seed: u64) {
         let img = dir.join("dev.img");
         let content = rng.bytes(8192);
         std::fs::write(&img, &content).map_err(|e| e.to_string())?;
-        let out = std::process::Command::new("losetup").args(["-f", "--show"]).arg(&img).output().map_err(|e| e.to_string())?;
-        if !out.status.success() {
+        let Some((sysdev, node)) = scn::attach_loop(&img, &dir) else {
             return Ok(false);
-        }
-        let dev = String::from_utf8_lossy(&out.stdout).trim().to_string();
+        };
+        let dev = node.display().to_string();
         let result = (|| {
             for (force, so) in [(true, false), (false, true)] {
                 let spec = CloneSpec { archive: p(&arch.path), output: std::path::PathBuf::from(&dev), force, seed_output: so, ..Default::default() };
@@ -370,6 +369,9 @@ fn loop_device_too_small(rep: &Report, seed: u64) {
                 if o.exit.ok() {
                     return Err("clone onto a loop device smaller than the source exited 0".to_string());
                 }
+                if !node.exists() {
+                    return Err("clone onto a too small block device was refused but the device node is gone".to_string());
+                }
                 let now = std::fs::read(&dev).map_err(|e| e.to_string())?;
                 if now != content {
                     return Err("clone onto a too small loop device was refused but the device content changed".to_string());
@@ -378,7 +380,8 @@ fn loop_device_too_small(rep: &Report, seed: u64) {
             }
             Ok(())
         })();
-        let _ = std::process::Command::new("losetup").arg("-d").arg(&dev).status();
+        let _ = std::fs::remove_file(&node);
+        scn::detach_loop(&sysdev);
         result.map(|_| true)
     })();
     match r {
